@@ -373,6 +373,17 @@ theorem atomStep_adv (a : Atom) (st : St) (ht : atomType a = .any) :
             exact hne (by simp [h0])
           omega
         · intro h; exact absurd h (by simp)
+  | repOne lo hi c =>
+    have hl : lo ≠ 0 := by
+      intro h0; simp [atomType, h0] at ht
+    simp only [atomStep]
+    split
+    · intro h; exact absurd h (by simp)
+    · split
+      · intro _
+        simp only [bumpHelp_pos]
+        omega
+      · intro h; exact absurd h (by simp)
   | _ =>
     simp only [atomType] at ht <;> simp only [atomStep] <;> (repeat' split) <;>
     first
